@@ -439,7 +439,7 @@ class TrioWorld(WorldBase):
             await hrun.worker_serve(
                 self.app, self.config,
                 sockets=Sockets([], [self.listen_sock], []),
-                shutdown_trigger=self.shutdown_event.wait,
+                shutdown_trigger=None if sc.get("no_trigger") else self.shutdown_event.wait,
             )
             if not self.finished:
                 self.serve_result = "ok"
